@@ -689,6 +689,127 @@ theorem setProfiles_last (c : Cfg) (v : Option (List Profile)) :
 theorem setProfiles_none_eq_empty (c : Cfg) : c.setProfiles none = c.setProfiles (some []) := rfl
 
 
+/-! ### Text form: wrapping never loses, splits, merges or reorders a word -/
+
+/-- the word chunks of a chunk list (blank chunks removed) -/
+def wordChunks (cs : List (List Char)) : List (List Char) := cs.filter (fun ch => !isSpaceChunk ch)
+
+theorem takeFit_split (avail : Nat) (cur : List (List Char)) (len : Nat) (l : List (List Char)) :
+    ∃ a, (takeFit avail cur len l).1 = cur ++ a ∧ a ++ (takeFit avail cur len l).2 = l := by
+  induction l generalizing cur len with
+  | nil => exact ⟨[], by simp [takeFit]⟩
+  | cons ch r ih =>
+    simp only [takeFit]
+    split
+    · obtain ⟨a, h1, h2⟩ := ih (cur ++ [ch]) (len + ch.length)
+      exact ⟨ch :: a, by simp [h1], by simp [h2]⟩
+    · exact ⟨[], by simp⟩
+
+theorem wordChunks_dropTrailingSpace (cur : List (List Char)) :
+    wordChunks (dropTrailingSpace cur) = wordChunks cur := by
+  simp only [dropTrailingSpace]
+  cases h : cur.getLast? with
+  | none => rfl
+  | some ch =>
+    simp only
+    split
+    · rename_i hsp
+      have hcur : cur = cur.dropLast ++ [ch] := by
+        have hne : cur ≠ [] := by intro hn; subst hn; simp at h
+        have := List.dropLast_concat_getLast hne
+        rw [List.getLast?_eq_some_getLast hne] at h
+        simp only [Option.some.injEq] at h
+        rw [h] at this
+        exact this.symm
+      conv => rhs; rw [hcur]
+      simp [wordChunks, List.filter_append, hsp]
+    · rfl
+
+theorem wordChunks_append (a b : List (List Char)) : wordChunks (a ++ b) = wordChunks a ++ wordChunks b := by
+  simp [wordChunks, List.filter_append]
+
+theorem lineSplit_spec (avail : Nat) (cs : List (List Char)) :
+    (lineSplit avail cs).1 ++ (lineSplit avail cs).2 = cs ∧ (cs ≠ [] → (lineSplit avail cs).1 ≠ []) := by
+  obtain ⟨a, ha1, ha2⟩ := takeFit_split avail [] 0 cs
+  simp only [List.nil_append] at ha1
+  simp only [lineSplit]
+  generalize takeFit avail [] 0 cs = tf at ha1 ha2
+  obtain ⟨cur, rest⟩ := tf
+  simp only at ha1 ha2
+  subst ha1
+  cases cur with
+  | nil =>
+    cases rest with
+    | nil => simp at ha2; subst ha2; simp
+    | cons c r => simp at ha2; subst ha2; simp
+  | cons x xs => simp [ha2]
+
+/-- **wrapping keeps every word**: the lines `textwrap` produces contain, in order, exactly the word
+chunks of the text — only blank chunks are dropped (at line starts and ends), nothing is split,
+merged, reordered or lost, for every width and indent -/
+theorem wrap_keeps_words (w hang : Nat) (n : Nat) (first : Bool) (cs : List (List Char))
+    (hfuel : cs.length ≤ n) :
+    wordChunks (wrapChunks w hang n first cs).flatten = wordChunks cs := by
+  induction n generalizing first cs with
+  | zero =>
+    have : cs = [] := by cases cs <;> simp_all
+    subst this; simp [wrapChunks, wordChunks]
+  | succ n ih =>
+    cases cs with
+    | nil => simp [wrapChunks, wordChunks]
+    | cons ch0 r0 =>
+      simp only [wrapChunks]
+      generalize hcs : (if (!first && isSpaceChunk ch0) = true then r0 else ch0 :: r0) = cs'
+      have hlen : cs'.length ≤ n + 1 := by
+        rw [← hcs]; split <;> simp at hfuel ⊢ <;> omega
+      have hwords : wordChunks cs' = wordChunks (ch0 :: r0) := by
+        rw [← hcs]; split
+        · rename_i h; simp at h; simp [wordChunks, h.2]
+        · rfl
+      obtain ⟨hsplit, hne⟩ := lineSplit_spec (if first = true then w else w - hang) cs'
+      generalize lineSplit (if first = true then w else w - hang) cs' = sp at hsplit hne
+      obtain ⟨cur2, rest2⟩ := sp
+      simp only at hsplit hne ⊢
+      have hrest : rest2.length ≤ n := by
+        by_cases hcs' : cs' = []
+        · subst hcs'; simp at hsplit; simp [hsplit.2]
+        · have := hne hcs'
+          have hl : cs'.length = cur2.length + rest2.length := by rw [← hsplit]; simp
+          have : 0 < cur2.length := List.length_pos_iff.2 this
+          omega
+      have hfin : wordChunks (dropTrailingSpace cur2) ++ wordChunks rest2 = wordChunks (ch0 :: r0) := by
+        rw [wordChunks_dropTrailingSpace, ← wordChunks_append, hsplit, hwords]
+      split
+      · rename_i hemp
+        rw [ih first rest2 hrest]
+        have : dropTrailingSpace cur2 = [] := by simpa using hemp
+        rw [this] at hfin
+        simpa [wordChunks] using hfin
+      · rw [List.flatten_cons, wordChunks_append, ih false rest2 hrest]
+        exact hfin
+
+/-- the same for `fill`, whose fuel is the number of chunks plus one -/
+theorem fill_keeps_words (w hang : Nat) (text : List Char) :
+    wordChunks (wrapChunks w hang ((chunks (munge text)).length + 1) true (chunks (munge text))).flatten
+      = wordChunks (chunks (munge text)) :=
+  wrap_keeps_words w hang _ true _ (Nat.le_succ _)
+
+/-! ### Text form — NOT proved
+
+Proved above: `wrap_keeps_words` / `fill_keeps_words` (the writer's line breaking keeps every word chunk, in
+order, for every width). Full round-trip statement (kept for the record; no theorem establishes it):
+
+    theorem text_roundtrip (secs : Sections) (hwf : every key is a lower-case word without ':' '=' blanks,
+        every section name a word without "__", every value and metadata text a list of words separated by
+        single blanks with no word starting in '#' or ';') (w : Nat) (hw : 34 ≤ w) :
+      (Cfg.new "r").updateFromText (asStr w 30 secs ++ "\n") src true false
+        = .ok (c', none)  ∧  view c' = view secs        -- same sections, keys, values, metadata
+
+What stands in for it on every run: (i) `asStr` of the model equals `cfg.as_str` of the code character for
+character on every generated configuration (op `w`), (ii) the model's reader equals
+`ConfigParser` + `update_from_file` on the written file (op `r`), and (iii) the oracle requires the view of
+`Configuration.read_from_file(write_to_file(cfg))` to equal the view of `cfg` for such values. -/
+
 end Midgard.Props.C19
 
 #print axioms Midgard.Props.C19.bool_spellings
@@ -743,3 +864,9 @@ end Midgard.Props.C19
 #print axioms Midgard.Props.C19.replace_no_vars
 #print axioms Midgard.Props.C19.setProfiles_last
 #print axioms Midgard.Props.C19.setProfiles_none_eq_empty
+#print axioms Midgard.Props.C19.takeFit_split
+#print axioms Midgard.Props.C19.wordChunks_dropTrailingSpace
+#print axioms Midgard.Props.C19.wordChunks_append
+#print axioms Midgard.Props.C19.lineSplit_spec
+#print axioms Midgard.Props.C19.wrap_keeps_words
+#print axioms Midgard.Props.C19.fill_keeps_words
